@@ -123,7 +123,8 @@ BApply0(s, o, tag) ==
     ELSE IF o.op = "write" /\ ~Writable(s.mode) THEN BR(s, <<"fail">>)
     ELSE IF o.op \in {"flush", "setvbuf"} /\ ~Writable(s.mode) THEN BR(s, <<"any">>)
     ELSE CASE o.op = "read" ->
-                (IF o.n = 0 THEN BR(s, IF s.cur >= Len(s.f) THEN <<"eof">> ELSE <<"data", <<>>>>)
+                (IF o.a \in RestCounts THEN BRead(s, Len(s.f))     \* negative / huge count: the rest of the file
+                 ELSE IF o.n = 0 THEN BR(s, IF s.cur >= Len(s.f) THEN <<"eof">> ELSE <<"data", <<>>>>)
                  ELSE BRead(s, o.n))
            [] o.op = "readline" ->
                 (LET r == BLineAt(s.f, s.cur) IN BR([s EXCEPT !.cur = r.cur], r.res))
